@@ -7,7 +7,7 @@ from more_executors._impl.throttle import ThrottleExecutor
 TOL = 8 * EPS
 
 
-def step_fn(mc, steps, raise_at=()):
+def step_fn(mc, steps, raise_at=(), raise_from=None):
     """count callable: piecewise constant function of virtual time; logs its calls."""
     st = {"n": 0}
 
@@ -19,7 +19,7 @@ def step_fn(mc, steps, raise_at=()):
         for (t0, val) in steps:
             if t >= t0:
                 v = val
-        if k in raise_at:
+        if k in raise_at or (raise_from is not None and t >= raise_from):
             mc.emit("count.call", k=k, out="raise")
             raise E("count#%d" % k)
         mc.emit("count.call", k=k, out=v)
@@ -34,6 +34,8 @@ COUNTS = {
     "raise": ((0.0, 1), (2.5, 2)),
     # the limit drops below what is already in flight while jobs are still queued
     "drop": ((0.0, 3), (0.5, 1)),
+    # the value changes (3 -> 1) and later the callable starts raising: the last good value (1) holds
+    "raise_after_change": ((0.0, 3), (0.5, 1)),
 }
 
 
@@ -41,14 +43,14 @@ def _params():
     out = []
     for ck in COUNTS:
         for nsub in (1, 2):
-            for njobs in ((5, 6) if ck == "drop" else (3, 4)):
+            for njobs in ((5, 6) if ck in ("drop", "raise_after_change") else (3, 4)):
                 for cancel in (False, True):
                     for block in (False, True):
                         if block and ck in ("0",):
                             continue        # blocks for ever by specification
                         if block and (cancel or nsub == 2 and njobs == 4):
                             continue
-                        if ck in ("step", "step_none", "raise", "drop") and (nsub == 2 or cancel):
+                        if ck in ("step", "step_none", "raise", "drop", "raise_after_change") and (nsub == 2 or cancel):
                             continue
                         out.append(dict(count=ck, nsub=nsub, njobs=njobs, cancel=cancel, block=block))
     return out
@@ -69,7 +71,8 @@ def body(mc, p):
     base = ManualExecutor(mc, mode="hold")
     c = COUNTS[p["count"]]
     if isinstance(c, tuple):
-        cnt = step_fn(mc, c, raise_at=(3, 4) if p["count"] == "raise" else ())
+        cnt = step_fn(mc, c, raise_at=(3, 4) if p["count"] == "raise" else (),
+                      raise_from=1.25 if p["count"] == "raise_after_change" else None)
     else:
         cnt = c
     ex = ThrottleExecutor(base, cnt, block=p["block"])
@@ -196,7 +199,7 @@ def check(x):
                           lateness=round(t - ref_time[tg], 2))
         # nothing eligible left behind at the end
         x.require(not (x.obs["queue"] > 0 and infl < lim and lim > 0), "queued-with-free-capacity")
-    if not static and p["count"] != "raise":
+    if not static and p["count"] not in ("raise", "raise_after_change"):
         # a changed dynamic count takes effect by the periodic re-check (<= 30 s) at the latest
         for tg, snap in x.obs["final"]:
             x.require(snap[0] != "pending" or tg in cancelled, "dynamic-count-never-applied", tag=tg)
@@ -246,7 +249,7 @@ harness("c07.throttle.lines", prop="C07", traced=("throttle",), horizon=120,
         params=[q for q in _params() if q["njobs"] in (3, 5)])(body)
 oracle("c07.throttle.lines")(check)
 
-CORE = lambda p: (p["count"] in ("1", "2") and p["njobs"] == 3 or p["count"] == "drop" and p["njobs"] == 5) and not p["block"]
+CORE = lambda p: (p["count"] in ("1", "2") and p["njobs"] == 3 or p["count"] in ("drop", "raise_after_change") and p["njobs"] == 5) and not p["block"]
 
 PLAN = {
     "quick": [dict(harness="c07.throttle", bound=1),
